@@ -19,7 +19,7 @@ typedef ebpps_sketch<uint64_t> EB;
 
 const char* property_id() { return "C18"; }
 unsigned case_timeout_s() { return 300; }
-static const uint64_t NSTAT_QUICK = 10, NSTAT_THOROUGH = 16;
+static const uint64_t NSTAT_QUICK = 10, NSTAT_THOROUGH = 20;
 uint64_t num_cases(bool thorough) { return thorough ? NSTAT_THOROUGH + 150000 : NSTAT_QUICK + 14000; }
 void final_report() {}
 
@@ -300,11 +300,13 @@ static void explore_case(Rng& r) {
 // ---------------------------------------------------------------- inclusion-probability cells
 struct Cell { int n; int k; int kind; int merge; int k2; };   // merge: 0 none, 1 second half merged into first (lvalue), 2 first merged into second (rvalue)
 static const Cell CELLS[] = {
-  {40, 5, K_UNIFORM, 0, 0}, {60, 10, K_TWOLEVEL, 0, 0}, {30, 3, K_DYADIC, 0, 0}, {50, 8, K_GIANT, 0, 0},
+  // (cells 3, 8, 9 are in the c < k regime: c = sum(w)/max(w) is fractional and shrinks whenever a new maximum arrives)
+  {40, 5, K_UNIFORM, 0, 0}, {60, 10, K_TWOLEVEL, 0, 0}, {30, 3, K_DYADIC, 0, 0}, {30, 60, K_UNIFORM, 0, 0},
   {48, 6, K_UNIFORM, 1, 9}, {60, 12, K_TWOLEVEL, 2, 7}, {24, 1, K_UNIFORM, 0, 0}, {80, 20, K_DECREASING, 0, 0},
-  {36, 4, K_INCREASING, 0, 0}, {40, 7, K_DYADIC, 1, 7},
+  {36, 50, K_INCREASING, 0, 0}, {40, 50, K_UNIFORM, 1, 45},
   {64, 16, K_HEAVYTAIL, 0, 0}, {50, 5, K_EQUAL, 0, 0}, {45, 9, K_UNIFORM, 2, 4}, {30, 2, K_TWOLEVEL, 0, 0},
-  {70, 10, K_UNIFORM, 1, 30}, {20, 30, K_GIANT, 0, 0},
+  {70, 10, K_UNIFORM, 1, 30}, {20, 30, K_GIANT, 0, 0}, {50, 8, K_GIANT, 0, 0}, {36, 4, K_INCREASING, 0, 0}, {40, 7, K_DYADIC, 1, 7},
+  {50, 80, K_DYADIC, 2, 70},
 };
 
 static void stat_cell(uint64_t idx, Rng& r) {
